@@ -513,7 +513,7 @@ pub fn group_prop(id: &str) -> Option<&'static GroupProp> {
 }
 
 // ---------------------------------------------------------------- C13, C14, C15 (+ co share of C02, C03)
-#[cfg(feature = "has-alloc")]
+#[cfg(feature = "with-co")]
 pub struct CoProp {
     pub id: &'static str,
     pub rule: &'static str,
@@ -522,7 +522,7 @@ pub struct CoProp {
     pub max_len: fn(Tier) -> usize,
 }
 
-#[cfg(feature = "has-alloc")]
+#[cfg(feature = "with-co")]
 fn co_base() -> Profile {
     let mut b = Profile::base();
     b.p_never = 6;
@@ -531,19 +531,19 @@ fn co_base() -> Profile {
     b.max_sched = 30;
     b
 }
-#[cfg(feature = "has-alloc")]
+#[cfg(feature = "with-co")]
 fn cp13(_t: Tier) -> crate::costream::CoProfile {
     use crate::costream::Terminal::*;
     crate::costream::CoProfile { base: co_base(), terminals: vec![(ForEach, 10)], adapters: [25, 20, 0, 55], p_drop: 5, p_src_vec: 90, saturate: true }
 }
-#[cfg(feature = "has-alloc")]
+#[cfg(feature = "with-co")]
 fn cp14(_t: Tier) -> crate::costream::CoProfile {
     use crate::costream::Terminal::*;
     let mut base = co_base();
     base.p_err = 56;
     crate::costream::CoProfile { base, terminals: vec![(TryForEach, 55), (CollectResult, 45)], adapters: [25, 15, 8, 52], p_drop: 4, p_src_vec: 90, saturate: true }
 }
-#[cfg(feature = "has-alloc")]
+#[cfg(feature = "with-co")]
 fn cp15(_t: Tier) -> crate::costream::CoProfile {
     use crate::costream::Terminal::*;
     let mut base = co_base();
@@ -551,7 +551,7 @@ fn cp15(_t: Tier) -> crate::costream::CoProfile {
     crate::costream::CoProfile { base, terminals: vec![(CollectVec, 50), (ForEach, 25), (TryForEach, 25)], adapters: [30, 25, 27, 18], p_drop: 2, p_src_vec: 100, saturate: false }
 }
 /// concurrent-stream share of C02: drops at any point, one injected panic
-#[cfg(feature = "has-alloc")]
+#[cfg(feature = "with-co")]
 pub fn cp02(_t: Tier) -> crate::costream::CoProfile {
     use crate::costream::Terminal::*;
     let mut base = co_base();
@@ -563,7 +563,7 @@ pub fn cp02(_t: Tier) -> crate::costream::CoProfile {
 }
 /// concurrent-stream share of C03: the source is not polled after None, work
 /// futures not after Ready, nothing outside the operation's own poll
-#[cfg(feature = "has-alloc")]
+#[cfg(feature = "with-co")]
 pub fn cp03(_t: Tier) -> crate::costream::CoProfile {
     use crate::costream::Terminal::*;
     let mut base = co_base();
@@ -571,14 +571,14 @@ pub fn cp03(_t: Tier) -> crate::costream::CoProfile {
     base.p_stale = 110;
     crate::costream::CoProfile { base, terminals: vec![(CollectVec, 25), (ForEach, 30), (TryForEach, 25), (CollectResult, 20)], adapters: [30, 20, 20, 30], p_drop: 2, p_src_vec: 40, saturate: false }
 }
-#[cfg(feature = "has-alloc")]
+#[cfg(feature = "with-co")]
 fn co_cases(t: Tier) -> u64 {
     match t {
         Tier::Quick => 160_000,
         Tier::Thorough => 3_000_000,
     }
 }
-#[cfg(feature = "has-alloc")]
+#[cfg(feature = "with-co")]
 fn co_len(t: Tier) -> usize {
     match t {
         Tier::Quick => 420,
@@ -586,14 +586,14 @@ fn co_len(t: Tier) -> usize {
     }
 }
 
-#[cfg(feature = "has-alloc")]
+#[cfg(feature = "with-co")]
 pub const CO_PROPS: &[CoProp] = &[
     CoProp { id: "C13", rule: "for_each with a finite concurrency limit, more source items than the limit, and at least one closure future that stayed pending across >= 2 polls of the operation (so back-pressure in the consumer was exercised); distinct = distinct decoded case", profile: cp13, cases: co_cases, max_len: co_len },
     CoProp { id: "C14", rule: "try_for_each / collect::<Result<Vec<_>,_>> in which a closure (item) future resolved Err while at least one other closure future that had been polled was still in flight; distinct = distinct decoded case", profile: cp14, cases: co_cases, max_len: co_len },
     CoProp { id: "C15", rule: "at least one closure invocation and either an adapter stack of depth >= 2 or a closure stage whose futures completed in an order different from source order; distinct = distinct decoded case", profile: cp15, cases: co_cases, max_len: co_len },
 ];
 
-#[cfg(feature = "has-alloc")]
+#[cfg(feature = "with-co")]
 pub fn co_prop(id: &str) -> Option<&'static CoProp> {
     CO_PROPS.iter().find(|p| p.id == id)
 }
